@@ -4,6 +4,7 @@ import re
 from .core import simplify, show, name_match, subterms, Site, MUT_PROJ, _strip_generics
 from .pattern import P, DEFAULT, match, find
 from . import guards as G
+from .pattern import match, find
 
 GROW = {'Vec::push', 'Vec::extend', 'Vec::insert', 'Vec::append', 'Vec::extend_from_slice', 'Vec::resize', 'VecDeque::push_back',
         'HashSet::insert', 'HashMap::insert', 'Vec::push_within_capacity', 'VecDeque::push_front', 'HashSet::extend', 'HashMap::extend'}
@@ -296,3 +297,86 @@ def immutable_after_construction(cx, adt, fields, rule='ENC', allow=()):
           f'no function writes {short}.{{{", ".join(fields)}}} after construction' + (f' (allowed: {", ".join(allow)})' if allow else ''),
           found='; '.join(f'{k} writes {sorted(v)}' for k, v in sorted(bad.items())) if bad else None)
     return w
+
+
+# ------------------------------------------------------------------------------------------------ MEMO
+
+def memo(cx, adt, cache_field, rule='MEMO', floor=1):
+    """memo-key completeness for every function that looks `self.<cache_field>` up (discovered, not listed)."""
+    n = 0
+    for b in sorted(user_bodies(cx.facts), key=lambda x: x.name):
+        if b.argc < 1 or adt_of_type(b.local_ty(1)) != adt:
+            continue
+        if any(match(f'(field {cache_field} (param self))', cx.arg(s, 0)) is not None for s in b.calls('HashMap::get')):
+            n += 1
+            cx.analysed_fns.add(b.name)
+            memo_fn(cx, b.name, adt, cache_field, rule)
+    cx.floor(rule, f'{adt}.{cache_field}', n, floor, f'functions consulting the memo {adt.split("::")[-1]}.{cache_field}')
+
+
+def memo_fn(cx, fname, adt, cache_field, rule='MEMO'):
+    """memo-key completeness: everything the memoised value (and the branches selecting it) depends on is either part of
+    the key or state of `self` that no function writes after construction."""
+    from .core import leaves
+    b = cx.fn(fname)
+    if b is None:
+        return
+    short = fname.split('::')[-1]
+    gets = [s for s in b.calls('HashMap::get') if match(f'(field {cache_field} (param self))', cx.arg(s, 0)) is not None]
+    cx.ob(rule, f'{fname}:lookup', len(gets) == 1, f'{short} consults self.{cache_field} once', found=str(len(gets)))
+    if len(gets) != 1:
+        return
+    key = cx.arg(gets[0], 1)
+    stores = []
+    for s in b.calls('HashMap::insert'):
+        if find(f'(field {cache_field} (param self))', cx.arg(s, 0)) is not None:
+            stores.append((s, cx.arg(s, 1), cx.arg(s, 2)))
+    for s in b.calls('*'):
+        name, raw = b.callee(s.data)
+        h = cx.facts.bodies.get(raw) if raw else None
+        if h is None or h.path == b.path:
+            continue
+        for hs in h.calls('HashMap::insert'):
+            a0, a1, a2 = cx.arg(hs, 0), cx.arg(hs, 1), cx.arg(hs, 2)
+            if match(f'(field {cache_field} (param 1))', a0) is not None and a1[0] == 'param' and a2[0] == 'param' \
+                    and match('(param 1)', cx.arg(s, 0)) is not None:
+                stores.append((s, cx.arg(s, a1[1] - 1), cx.arg(s, a2[1] - 1)))
+    cx.ob(rule, f'{fname}:store', len(stores) >= 1, f'{short} stores its verdict into self.{cache_field} ({len(stores)} site(s))')
+    # fields of self that some function writes after construction
+    w = field_writers(cx, adt, tuple(f['name'] for v in cx.facts.adts[adt]['variants'] for f in v['fields']))
+    mutable = set()
+    for fn, fs in w.items():
+        mutable |= fs
+    mutable.discard(cache_field)
+    miss = gets[0].data['t']
+    for (s, k, v) in stores:
+        cx.ob(rule, f'{fname}:same-key', k == key, f'{short}: the verdict is stored under the key that was looked up', where=s, found=k)
+        fwd = b.reach_from([miss])
+        back = set()
+        work = [s.bb]
+        while work:
+            x = work.pop()
+            if x in back:
+                continue
+            back.add(x)
+            work.extend(b.pred[x])
+        region = fwd & back
+        lv = set(leaves(v))
+        for bi in sorted(region):
+            t = b.blocks[bi]['term']
+            if t['k'] == 'switch' and bi != gets[0].data['t'] and len([x for x in b.succ[bi] if x in region or x == s.bb]) > 0:
+                c = simplify(b.dag().operand(t['d'], bi, len(b.blocks[bi]['stmts'])))
+                if find(f'(call HashMap::get (field {cache_field} (param self)) _)', c) is not None:
+                    continue
+                lv |= set(leaves(c))
+        keyl = set(leaves(key))
+        params = {l for l in lv if l[0] == 'param' and l[1] != 1}
+        extra = sorted(p[2] for p in params if p not in keyl)
+        cx.ob(rule, f'{fname}:key-covers-inputs', not extra,
+              f'{short}: every parameter the cached verdict (or a branch selecting it) depends on is part of the memo key `{show(key)}`',
+              where=s, found=('the verdict depends on parameter(s) ' + ', '.join(extra) + ' which are not in the key: the first caller decides the answer for all later ones') if extra else None)
+        selff = sorted({l[1] for l in lv if l[0] == 'field' and l[2][0] == 'param' and l[2][1] == 1})
+        badf = [f for f in selff if f in mutable or '*' in mutable]
+        cx.ob(rule, f'{fname}:state-immutable', not badf,
+              f'{short}: the state of self read by the verdict ({", ".join(selff)}) is never written after construction',
+              where=s, found=', '.join(badf) if badf else None)
